@@ -73,6 +73,9 @@ RISKY = [
     # links that name the page's own file plus an explicit target whose spelling is not its id
     ["(My_Target)=", "para", "", "[t](index.md#My_Target) [](index.md#my_target) <project:index.md#My_Target> [u](./index.md#My_Target)"], ["```{note}", ":name: Fig.One", "x", "```", "", "[t](index.md#Fig.One) [](index.md#fig-one) [m](index.md#Nowhere_At.All)"],
     ["{#Para_Id}", "para", "", "[t](index.md#Para_Id) [](#Para_Id) [v](index.md#para-id)"], ["# Head Line", "", "[t](index.md#head-line) [u](index.md#Head-Line) [v](index.md#Head Line)"],
+    # containers that hold nothing but footnote definitions (which a transform moves away) and are link targets themselves
+    ["(notes)=", "> [^qa]: in a quote", "", "x[^qa] [t](#notes) [](#notes)"], ["{#qid}", "> [^qb]: only a footnote", "> [^qc]: and another", "", "y[^qb] z[^qc] [u](#qid)"], ["(lst)=", "- [^qd]: in a list", "", "z[^qd] [v](#lst)"],
+    ["(nt)=", "```{note}", "[^qe]: in a note", "```", "", "w[^qe] [n](#nt)"], ["> (inner)=", "> > [^qf]: nested quote", "", "v[^qf] [i](#inner)"], ["{#did}", ":::{tip}", "[^qg]: in a colon fence", ":::", "", "u[^qg] [d](#did)"],
     # html blocks that are only partly convertible, their names linked to
     ['<img src="a.png" name="hx"><b>tail</b>', "", "[t](#hx) [](#hx)"], ['<div class="admonition" name="ha"><p>x</p></div><span>tail</span>', "", "[t](#ha)"], ['<img src="a.png" name="hy"><img alt="nosrc">', "", "[t](#hy)"],
     ['<img src="a.png" name="hz">', '<div class="admonition" name="hz"><p>x</p></div>', "", "[t](#hz)"], ['text <img src="a.png" name="hi"> <b>b</b> [t](#hi)'], ['<div class="admonition" name="hq">', "<img src=\"q.png\" name=\"hq2\">", "</div>", "", "[a](#hq) [b](#hq2)"],
